@@ -45,15 +45,26 @@ def h_quantify(ctx):
     tu = w.term(u)
     ex = ctx.fn(fol.Context.exist)
     fa = ctx.fn(fol.Context.forall)
+    forms = (set, list, tuple, frozenset, lambda q: dict.fromkeys(q).keys())
+    n = 0
     for k in range(0, len(names) + 1):
         for qv in itertools.combinations(names, k):
             bits = w.zs(w.bits_of(qv))
-            r = ctx.call(ex, c, set(qv), u, label='exist')
+            # the quantified identifiers as a set (documented), and as the lists /
+            # tuples that the game solvers pass; the caller's collection is only read
+            n += 1
+            arg = forms[n % len(forms)](qv)
+            r = ctx.call(ex, c, arg, u, label='exist')
             w.oblige(f'exist({sorted(qv)}).post: exactly the predicate holding where SOME representable values of the quantified variables satisfy u',
                      spec.equiv(w, w.term(r), spec.exists(bits, tu)))
-            r = ctx.call(fa, c, set(qv), u, label='forall')
+            w.oblige('exist.frame: the caller\'s collection of identifiers is left as it was',
+                     z3.BoolVal(sorted(arg) == sorted(qv) and len(arg) == len(qv)))
+            arg = forms[(n + 1) % len(forms)](qv)
+            r = ctx.call(fa, c, arg, u, label='forall')
             w.oblige(f'forall({sorted(qv)}).post: exactly where ALL representable values satisfy u',
                      spec.equiv(w, w.term(r), spec.forall(bits, tu)))
+            w.oblige('forall.frame: the caller\'s collection of identifiers is left as it was',
+                     z3.BoolVal(sorted(arg) == sorted(qv) and len(arg) == len(qv)))
     w.canary('quantify canary: exist == forall',
              spec.equiv(w, w.term(ctx.call(ex, c, {names[0]}, u)),
                         w.term(ctx.call(fa, c, {names[0]}, u))))
@@ -78,7 +89,10 @@ def h_let_values(ctx):
             vals = list(range(L, H + 1))
         for v in vals:
             n += 1
-            r = ctx.call(let, c, {name: v}, u, label='let')
+            defs = {name: v}
+            r = ctx.call(let, c, defs, u, label='let')
+            w.oblige('let.frame: the caller\'s dict of definitions is left as it was',
+                     z3.BoolVal(defs == {name: v} and type(defs[name]) is type(v)))
             if t[name]['type'] == 'bool':
                 sub = [(w.z(name), z3.BoolVal(v))]
             else:
@@ -123,6 +137,8 @@ def h_assign_apply(ctx):
     for vals in itertools.product(*doms):
         asg = dict(zip(names, vals))
         r = ctx.call(af, c, asg, label='assign_from')
+        w.oblige('assign_from.frame: the caller\'s assignment is left as it was',
+                 z3.BoolVal(asg == dict(zip(names, vals))))
         lits = list()
         for nm, v in asg.items():
             if t[nm]['type'] == 'bool':
